@@ -34,6 +34,12 @@ func c19Case(c *core.Ctx, r *core.RNG, size, count, red int, erasure bool) {
 		c.Violate("C19|valid-refused", "size=%d count=%d red=%d: %v", size, count, red, err)
 		return
 	}
+	if size*count <= 4096 {
+		// the same call again, and a call on a copy, give the same fragments
+		if r2, e2 := fragmentation.Encode(append([]byte{}, orig...), size, red); e2 != nil || core.Dump(r2) != core.Dump(rows) {
+			c.Violate("C19|second-identical-call-differs", "size=%d count=%d red=%d: a second call with the same arguments returns different fragments (%v)", size, count, red, e2)
+		}
+	}
 	pow := isPow2i(count)
 	if len(rows) != count+red {
 		c.Violate("C19|row-count", "size=%d count=%d red=%d: %d rows", size, count, red, len(rows))
